@@ -136,6 +136,14 @@ func Current() (*Run, *Task) {
 	r.mu.Lock()
 	t := r.byG[g]
 	if t == nil {
+		// A goroutine that is not a task. If it runs outside the bubble (started
+		// at package initialisation, e.g. a signal listener) it must not touch
+		// the run: the simulated clock starts in the year 2000, the real one
+		// does not.
+		if time.Now().Year() > 2015 {
+			r.mu.Unlock()
+			return nil, nil
+		}
 		r.adopted++
 		t = &Task{ID: "x" + strconv.Itoa(r.adopted), Name: "adopted", resume: make(chan struct{}), state: stRunning, gid: g, run: r}
 		r.tasks = append(r.tasks, t)
